@@ -396,6 +396,10 @@ def _run_once_with_chain(case):
 
 
 def run_impl(case):
+    if case["kind"] == "rx":
+        r = _run_rx(case)
+        return {"obs": [str(sorted(r.items()))], "r": r, "runs": [r],
+                "stats": {"rx": 1, "fault_hit": 1, f"rx_executor:{case['executor']}": 1, f"rx_where:{case['where']}": 1}}
     if case["kind"] == "ktab":
         r = _run_ktab(case)
         return {"obs": _ktab_obs(r, "H"), "r": r, "runs": [r],
@@ -511,7 +515,7 @@ def nontrivial(case, impl):
 
 
 def model_input(case, impl):
-    if "r" not in impl or case.get("base"):  # harness error (reported by the engine) / outside the model
+    if "r" not in impl or case.get("base") or case["kind"] == "rx":  # harness error / outside the model
         return ["n 0", "run"]
     if case["kind"] == "ktab":
         return [f"ktab {_kind_of(case['exc'])} " + " ".join("1" if e else "0" for e in case["execs"] + [False])]
@@ -547,6 +551,8 @@ def model_input(case, impl):
 
 
 def diff(case, impl, model):
+    if case["kind"] == "rx":
+        return None  # real pools: the schedule is the operating system's; judged by the oracle
     if case["kind"] == "ktab":
         # the tree must behave as the model's `head` configuration or as the `proposed` one
         best = None
@@ -648,6 +654,8 @@ def oracle(case, impl):
         return _flow_oracle(case, r)
     if case["kind"] == "ktab":
         return _ktab_oracle(case, r)
+    if case["kind"] == "rx":
+        return _rx_oracle(case, r)
     if case["kind"] == "single":
         sup = case["suppress"]
         s = lambda c: {"clause": c, "kind": "single", "suppress": sup}  # noqa: E731
@@ -2013,3 +2021,97 @@ def gen_nfine_case(rng, depth, classes):
     return {"kind": "nest", "nfine": True, "prog": c["prog"], "fails": fl, "exec": sorted(ex), "mode": "ctl",
             "choices": [rng.randint(0, 5) for _ in range(60)], "prerun": False,
             **({"suppress": True} if rng.random() < 0.2 else {})}
+
+
+# =====================================================================================================
+# real executors (kind "rx"): ThreadPoolExecutor and the library's own CloudpickleProcessPoolExecutor (a real process)
+# =====================================================================================================
+#
+# case = {"kind": "rx", "executor": "thread"|"cloudproc", "where": "child"|"in-macro"|"macro", "exc": key, "prerun": bool}
+# workflow  pre -> X -> post ; X is the RX node (child), or a macro containing first -> RX -> last with the RX node
+# (in-macro) or the whole macro (macro) on the executor. The failure travels with the input ("raise:<key>").
+
+
+def _run_rx(case):
+    import multiprocessing
+    from concurrent.futures import ThreadPoolExecutor
+
+    from pyiron_workflow import Workflow
+    from pyiron_workflow.executors.cloudpickleprocesspool import CloudpickleProcessPoolExecutor
+
+    from . import nodes_c06 as N
+    from .execsim import term_str
+
+    N.reset()
+    wf = Workflow("w", autoload=None)
+    wf.use_cache = False
+    wf.pre = N.G2()
+    if case["where"] == "child":
+        wf.x = N.RX(b=wf.pre)
+        target, holder = wf.x, wf.x
+    else:
+        wf.x = N.RXMacro()
+        wf.pre >> wf.x  # the macro takes no data from `pre`: make it wait for it
+        target = wf.x.rx
+        holder = wf.x.rx if case["where"] == "in-macro" else wf.x
+    wf.post = N.G3(a=wf.x)
+    for n in (wf.pre, wf.x, wf.post, target):
+        n.use_cache = False
+    if case["executor"] == "thread":
+        exe = ThreadPoolExecutor(1)
+    else:
+        exe = CloudpickleProcessPoolExecutor(1, mp_context=multiprocessing.get_context("spawn"))
+    before = None
+    try:
+        holder.executor = exe
+        if case.get("prerun"):
+            wf.run()
+            before = term_str(target.outputs.o.value)
+            N.CALL_LOG.clear()
+        wf.x.inputs.a.value = "raise:" + case["exc"]
+        outcome, exc = "ok", None
+        try:
+            wf.run()
+        except BaseException as e:  # noqa: BLE001
+            outcome, exc = f"raised:{type(e).__name__}", e
+    finally:
+        exe.shutdown(wait=True)
+    want = N.exc_type(case["exc"])
+    chain = _chain_objs(exc)
+    nodes = {"w": wf, "pre": wf.pre, "x": wf.x, "post": wf.post, "target": target}
+    return {
+        "outcome": outcome, "chain_types": [type(e).__name__ for e in chain],
+        "original_in_chain": any(type(e) is want and e.args == ("rx",) for e in chain),
+        "flags": {k: (bool(n.running), bool(n.failed)) for k, n in nodes.items()},
+        "post_calls": N.CALL_LOG.count(3), "out": term_str(target.outputs.o.value), "before": before,
+    }
+
+
+def _rx_oracle(case, r):
+    fails = []
+
+    def sig(c):
+        return {"clause": c, "kind": "rx", "executor": case["executor"], "where": case["where"]}
+
+    if not r["outcome"].startswith("raised:"):
+        fails.append({"clause": "error-does-not-reach-caller", "detail": str(r), "signature": sig("reaches-caller")})
+    elif not r["original_in_chain"]:
+        fails.append({"clause": "original-exception-lost",
+                      "detail": f"{case['exc']}('rx') raised on {case['executor']} is not in the cause chain {r['chain_types']}",
+                      "signature": sig("cause")})
+    must_fail = ["w", "x", "target"]
+    for k in must_fail:
+        run, failed = r["flags"][k]
+        if run or not failed:
+            fails.append({"clause": "failing-node-flags" if k == "target" else "composite-flags",
+                          "detail": f"{k}: running={run} failed={failed}", "signature": sig("node-flags")})
+    for k, (run, failed) in r["flags"].items():
+        if run:
+            fails.append({"clause": "node-left-running", "detail": f"{k} running", "signature": sig("left-running")})
+        if failed and k not in must_fail:
+            fails.append({"clause": "unrelated-node-marked-failed", "detail": k, "signature": sig("nobody-else")})
+    if r["post_calls"]:
+        fails.append({"clause": "downstream-of-failure-executed", "detail": "post ran", "signature": sig("no-downstream")})
+    if r["out"] != (r["before"] if r["before"] is not None else "ND"):
+        fails.append({"clause": "outputs-not-kept", "detail": f"{r['out']} vs {r['before']}", "signature": sig("outputs-kept")})
+    return fails
